@@ -2065,8 +2065,23 @@ impl Fs {
             }
         }
 
-        // Overlay pending writes (need to check the content path)
+        // Overlay pending writes and truncations in log order (need to check the content path)
         for op in &self.pending {
+            if let PendingOp::SetLen {
+                path: p,
+                len: new_len,
+                ..
+            } = op
+            {
+                // A truncate (or extend) discards everything at and beyond
+                // `new_len`; if the file grows again later those bytes read as zeros.
+                if (p == &content_path || self.path_renamed_to(p, &content_path))
+                    && *new_len < offset + to_read as u64
+                {
+                    let from = new_len.saturating_sub(offset) as usize;
+                    buf[from..to_read].fill(0);
+                }
+            }
             if let PendingOp::Write {
                 path: p,
                 offset: write_off,
